@@ -74,7 +74,7 @@ Qed.
 Lemma to_bytes_le_bytes be z : bytes (to_bytes_le be z).
 Proof.
   unfold to_bytes_le. destruct (Z.abs z =? 0).
-  - destruct be; [constructor; [unfold byte_ok; lia | constructor] | constructor].
+  - destruct be; try constructor; try (unfold byte_ok; lia); constructor.
   - apply Z_to_le_bytes.
 Qed.
 
